@@ -23,7 +23,7 @@ FAULTS = ["illegal_char_line", "stray_identifier_line", "stray_comma_line", "del
           "delete_open_brace", "unterminated_string", "column_without_type", "unknown_setting", "unknown_index_type",
           "bad_ref_operator", "bad_action", "bad_colour", "text_after_close_brace", "delete_open_bracket", "delete_close_bracket",
           "duplicate_open_bracket", "duplicate_close_bracket",
-          "empty_settings", "trailing_comma_in_settings", "missing_comma_in_settings", "missing_value", "ref_without_column", "keyword_typo", "junk_in_type_args"]
+          "empty_settings", "trailing_comma_in_settings", "missing_comma_in_settings", "missing_value", "ref_without_column", "keyword_typo", "junk_in_type_args", "exotic_space_line"]
 _HEADS = [('Table ', 'table_head', 'table'), ('Enum ', 'enum_head', 'enum'), ('TableGroup ', 'group_head', 'group'),
           ('Project ', 'project_head', 'project'), ('Ref', 'ref_head', 'ref'), ('indexes', 'indexes_head', 'indexes'),
           ('Note ', 'sticky_head', 'note'), ('Note {', 'note_head', 'note')]
@@ -115,6 +115,8 @@ def apply_fault(lines: List[str], i: int, fault: str, variant: int) -> List[str]
     new = list(lines)
     if fault == 'illegal_char_line':
         new.insert(i, ['@', '%', ';', 'a @ b'][variant % 4])
+    elif fault == 'exotic_space_line':
+        new.insert(i, ['\x0c', '\x0b', '\u00a0', '\u2028', '\u3000', '\x85', '  \x0c  ', '\x1c'][variant % 8])
     elif fault == 'stray_identifier_line':
         new.insert(i, ['zzz', 'zzz_9', 'ZZZ'][variant % 3])
     elif fault == 'stray_comma_line':
@@ -247,9 +249,9 @@ def main(argv: List[str]) -> int:
         labels = label(lines)
         for i, site in enumerate(labels + [{'ctx': 'top', 'kind': 'blank', 'feats': []}]):
             for fault in FAULTS:
-                if i >= len(lines) and fault not in ('illegal_char_line', 'stray_identifier_line', 'stray_comma_line'):
+                if i >= len(lines) and fault not in ('illegal_char_line', 'exotic_space_line', 'stray_identifier_line', 'stray_comma_line'):
                     continue
-                for variant in range(13 if fault == 'bad_action' else 8 if fault == 'unknown_index_type' else 5 if fault == 'junk_in_type_args' else 3 if fault in ('empty_settings', 'trailing_comma_in_settings', 'missing_comma_in_settings', 'missing_value', 'ref_without_column', 'keyword_typo') else 4 if fault in ('duplicate_open_bracket', 'duplicate_close_bracket') else 3 if fault in ('illegal_char_line', 'bad_colour', 'bad_ref_operator', 'text_after_close_brace', 'unknown_setting') else 1):
+                for variant in range(13 if fault == 'bad_action' else 8 if fault == 'unknown_index_type' else 5 if fault == 'junk_in_type_args' else 3 if fault in ('empty_settings', 'trailing_comma_in_settings', 'missing_comma_in_settings', 'missing_value', 'ref_without_column', 'keyword_typo') else 4 if fault in ('duplicate_open_bracket', 'duplicate_close_bracket') else 3 if fault in ('illegal_char_line', 'exotic_space_line', 'bad_colour', 'bad_ref_operator', 'text_after_close_brace', 'unknown_setting') else 1):
                     try:
                         new = apply_fault(lines + ([''] if i >= len(lines) else []), i, fault, variant + (seed if fault != 'unknown_setting' else 0))
                     except (ValueError, AttributeError, ZeroDivisionError, IndexError):
